@@ -53,6 +53,37 @@ namespace options
                         std::forward_as_tuple(*this, group));
     }
 
+    parser::parser(parser&& other)
+    : app_name_(std::move(other.app_name_)), about_(std::move(other.about_)),
+      groups_(std::move(other.groups_)), group_order_(std::move(other.group_order_)),
+      allowed_positionals_(other.allowed_positionals_),
+      greedy_positionals_(other.greedy_positionals_),
+      positional_name_(std::move(other.positional_name_))
+    {
+        for (auto& grp : groups_)
+        {
+            grp.second.parser_ = this;
+        }
+    }
+
+    parser& parser::operator=(parser&& other)
+    {
+        app_name_ = std::move(other.app_name_);
+        about_ = std::move(other.about_);
+        groups_ = std::move(other.groups_);
+        group_order_ = std::move(other.group_order_);
+        allowed_positionals_ = other.allowed_positionals_;
+        greedy_positionals_ = other.greedy_positionals_;
+        positional_name_ = std::move(other.positional_name_);
+
+        for (auto& grp : groups_)
+        {
+            grp.second.parser_ = this;
+        }
+
+        return *this;
+    }
+
     nitro::options::group& parser::group()
     {
         return groups_.at("__default");
